@@ -127,8 +127,12 @@ func C13(run *vf.Run) {
 		return nil
 	})
 	if fmt.Sprint(gotSites) != fmt.Sprint(wantSites) {
-		run.Inconclusive("the pattern-cache call sites in the source tree (%v) are not the ones Memo.tla models (%v): extend Sites / Configs", gotSites, wantSites)
-		return
+		// the replay below still runs (a behavioural difference is a verdict of its own); without one the run cannot vouch for the property
+		defer func() {
+			if run.NumViolations() == 0 {
+				run.Inconclusive("the pattern-cache call sites in the source tree (%v) are not the ones Memo.tla models (%v): extend Sites / Configs", gotSites, wantSites)
+			}
+		}()
 	}
 	maxW := vf.Pick(run, 2, 3)
 	var hists [][][]any
@@ -198,7 +202,7 @@ func C13(run *vf.Run) {
 		return
 	}
 	// reference: every configuration alone, in a fresh process, with and without the cache
-	nCfg := 18
+	nCfg := 22
 	alone := map[int]string{}
 	for c := 1; c <= nCfg; c++ {
 		a, e1 := runProbe(binMemo, [][]any{{"build", c}})
